@@ -57,6 +57,9 @@ def f_var_os(em, e, env, k):
 
 
 def m_opt_unwrap_or_default(em, e, rt, rty, env, k):
+    if rty == ("opt", BOOL):
+        # <bool as Default>::default() = false
+        return k("(ch_unwrap_or %s false)" % rt, BOOL, env)
     if rty != ("opt", OSSTR):
         raise EmitError("unwrap_or_default on %r: only Option<&OsStr> is modelled" % (rty,))
     return k("(ch_unwrap_or %s [])" % rt, OSSTR, env)
@@ -110,8 +113,8 @@ def m_raw_is_terminal(em, e, rt, rty, env, k):
     return k("(ch_raw_is_terminal %s)" % rt, BOOL, env)
 
 
-ENUM_CHOICE = {"coq": "choice", "var": "ch", "variants": {c: "Ch" + c for c in CHOICES}}
-ENUM_FLAG = {"coq": "color_flag", "var": "fl", "variants": {f: "Fl" + f for f in FLAGS}}
+ENUM_CHOICE = {"coq": "choice", "var": "ch", "eqb": "ch_choice_eqb", "variants": {c: "Ch" + c for c in CHOICES}}
+ENUM_FLAG = {"coq": "color_flag", "var": "fl", "eqb": "ch_flag_eqb", "variants": {f: "Fl" + f for f in FLAGS}}
 
 STRUCT_OS = {"coq": "(list N)", "var": "s", "eqb": "ch_bytes_eq", "fields": {}, "check": False}
 
@@ -120,6 +123,7 @@ V_QUERY = {
     "config_param": ("e", "ch_env"),
     "reserved": ["e"],
     "cfg_static": {"windows": False},
+    "opt_eqb": "ch_opt_eqb",
     "type_alias": {"OsStr": OSSTR},
     "enums": {},
     "structs": {"OsString": STRUCT_OS},
@@ -178,10 +182,11 @@ V_AUTO = {
     "structs": {"AtomicChoice": {"coq": "ch_atomic", "var": "a", "fields": {}, "check": False}},
     "consts": {},
     "param_types": {"raw": ("coq", "ch_raw")},
+    "opt_eqb": "ch_opt_eqb",      # `clicolor == Some(true)`: Option<bool> compared with `==`
     "statics": {"USER": ATOMIC},
     "static_use": {"choice": [("USER", "in")], "AutoStream::choice": [("USER", "in")]},
     "fns": {},
-    "methods": {("coq", "is_terminal"): m_raw_is_terminal},
+    "methods": {("coq", "is_terminal"): m_raw_is_terminal, ("opt", "unwrap_or_default"): m_opt_unwrap_or_default},
     "opaque": {},
 }
 
@@ -192,6 +197,18 @@ From AV Require Import Spec.Choice Generated.Choice Model.Base Model.Imp Model.C
 Import ListNotations.
 Local Open Scope N_scope.
 Local Open Scope bool_scope."""
+
+
+# The TYPE of a translated function is part of the statements of Proofs/ChoiceGen.v and Props/C09.v
+# (`g_f e = Some (ch_f e)` | `g_f e = ch_f e`), so it must not depend on how the body is spelled:
+#   * the functions the lemmas state in the option monad are translated with `monadic` (forced), whatever their body
+#     needs -- a rewrite that happens to need no bind (`if let` for `match .. { None => .. }`) keeps the type;
+#   * the others (non_empty, clicolor_force, no_color, truecolor, is_ci, ColorChoice::default) are total, and stay
+#     total when a rewrite introduces a statement-level branch / an inlined helper with early returns
+#     (`total_joins`, emit.py resolve_joins).
+MON = {"monadic": True}
+for _v in (V_QUERY, V_COLORCHOICE, V_CLAP, V_AUTO):
+    _v["total_joins"] = True
 
 
 def check_enum(src, name, variants, what):
@@ -227,38 +244,38 @@ def register(generators, gm):
             out = []
             out.append(translate(query, V_QUERY, [
                 ("non_empty", None, "g_non_empty", {}),
-                ("clicolor", None, "g_clicolor", {}),
+                ("clicolor", None, "g_clicolor", MON),
                 ("clicolor_force", None, "g_clicolor_force", {}),
                 ("no_color", None, "g_no_color", {}),
-                ("term_supports_color", None, "g_term_supports_color", {}),
-                ("term_supports_ansi_color", None, "g_term_supports_ansi_color", {}),
+                ("term_supports_color", None, "g_term_supports_color", MON),
+                ("term_supports_ansi_color", None, "g_term_supports_ansi_color", MON),
                 ("truecolor", None, "g_truecolor", {}),
                 ("is_ci", None, "g_is_ci", {}),
             ], HEADER, REQ, shapes))
             check_enum(cc, "ColorChoice", CHOICES, "colorchoice")
             check_static_user(cc)
             out.append(translate(cc, V_COLORCHOICE, [
-                ("from_choice", "AtomicChoice", "g_from_choice", {}),
-                ("to_choice", "AtomicChoice", "g_to_choice", {}),
-                ("new", "AtomicChoice", "g_atomic_new", {}),
-                ("get", "AtomicChoice", "g_atomic_get", {}),
-                ("set", "AtomicChoice", "g_atomic_set", {}),
-                ("global", "ColorChoice", "g_global", {}),
-                ("write_global", "ColorChoice", "g_write_global", {}),
+                ("from_choice", "AtomicChoice", "g_from_choice", MON),
+                ("to_choice", "AtomicChoice", "g_to_choice", MON),
+                ("new", "AtomicChoice", "g_atomic_new", MON),
+                ("get", "AtomicChoice", "g_atomic_get", MON),
+                ("set", "AtomicChoice", "g_atomic_set", MON),
+                ("global", "ColorChoice", "g_global", MON),
+                ("write_global", "ColorChoice", "g_write_global", MON),
                 ("default", "ColorChoice", "g_choice_default", {"trait": "Default"}),
-                ("default", "AtomicChoice", "g_atomic_default", {"trait": "Default"}),
+                ("default", "AtomicChoice", "g_atomic_default", dict(MON, trait="Default")),
             ], "", "", shapes))
             out.append("(* static USER: AtomicChoice = AtomicChoice::new(); *)\nDefinition g_user_initial : %sch_atomic := g_atomic_new.\n"
                        % ("" if shapes["AtomicChoice::new"]["total"] else "option "))
             # colorchoice_clap and anstream name the choice enum through another path
             shapes["CcChoice::write_global"] = shapes["ColorChoice::write_global"]
             out.append(translate(clap, V_CLAP, [
-                ("as_choice", "Color", "g_as_choice", {}),
-                ("write_global", "Color", "g_color_write_global", {}),
+                ("as_choice", "Color", "g_as_choice", MON),
+                ("write_global", "Color", "g_color_write_global", MON),
             ], "", "", shapes))
             out.append(translate(auto, V_AUTO, [
-                ("choice", None, "g_choice", {}),
-                ("choice", "AutoStream", "g_autostream_choice", {}),
+                ("choice", None, "g_choice", MON),
+                ("choice", "AutoStream", "g_autostream_choice", MON),
             ], "", "", shapes))
             return "\n".join(out) + "\n"
         except TranslateError as e:
